@@ -3,6 +3,7 @@
 from ..r_matcher import run_matcher_rules
 from ..r_hygiene import rule_hygiene as _rule_hygiene
 from ..r_rings import rule_hybridization_table as _rule_hyb
+from ..r_round8 import rule_no_break_over_sets as _r8_sets
 
 LEVEL = 'other'
 
@@ -21,3 +22,4 @@ def run(ck, repo):
     run_matcher_rules(ck, repo, ck.tier == 'thorough')
     _rule_hygiene(ck, repo, 'C09.H-dataflow-hygiene', 'C09')
     _rule_hyb(ck, repo, 'C09.D4-hybridization')
+    _r8_sets(ck, repo, 'C09.D4-set-loops-complete')
